@@ -1110,8 +1110,8 @@ func runOkAgg(c *core.Ctx) {
 		}
 		for _, g := range an.Guards(call.Parent(), call.Block()) {
 			if strings.HasSuffix(an.PathOf(g.V), ".Accepted") {
-				if call.Parent() == msgFn {
-					slotList = strings.TrimSuffix(an.PathOf(g.V), "[*].Accepted")
+				if sp := o.Path(g.V); strings.HasSuffix(sp, "[*].Accepted") {
+					slotList = strings.TrimSuffix(sp, "[*].Accepted") // in Msg's terms, also when the split is a helper's
 				}
 				polarity[call] = g.True
 				if g.True {
@@ -1140,6 +1140,15 @@ func runOkAgg(c *core.Ctx) {
 		case *ssa.Call:
 			if b, isB := x.Call.Value.(*ssa.Builtin); isB && b.Name() == "append" {
 				return append([]*ssa.Call{x}, feeds(x.Call.Args[0], seen)...)
+			}
+			// the list as the single result of a private helper (`rejected := rejectedOnly(msgs)`)
+			if h := an.StaticCallee(&x.Call); an.PrivateHelper(h) && h.Signature.Results().Len() == 1 {
+				var out []*ssa.Call
+				for _, rb := range an.ReturnBlocks(h) {
+					rv := an.ReturnValues(an.LastInstr(rb).(*ssa.Return))
+					out = append(out, feeds(rv[0], seen)...)
+				}
+				return out
 			}
 		case *ssa.Extract:
 			if hc, isCall := x.Tuple.(*ssa.Call); isCall {
@@ -1221,20 +1230,45 @@ func runOkAgg(c *core.Ctx) {
 		}
 		// one join call fed by a variable that was picked before (`picked := accepted; if len(rejected) > 0
 		// { picked = rejected }; return join(picked...)`): per edge of the phi
-		if ph, isPhi := an.Unwrap(arg).(*ssa.Phi); isPhi && len(ph.Edges) == 2 && !onlyPolarity(arg, false) && !onlyPolarity(arg, true) {
+		edgeKind := func(e ssa.Value) string {
+			switch {
+			case an.IsNilConst(an.Unwrap(e)):
+				return "empty"
+			case onlyPolarity(e, false):
+				return "rej"
+			case onlyPolarity(e, true):
+				return "acc"
+			case slotList != "" && an.PathOf(e) == slotList:
+				return "all"
+			}
+			return "other"
+		}
+		pickedPhi := false
+		if ph, isPhi := an.Unwrap(arg).(*ssa.Phi); isPhi && len(ph.Edges) == 2 {
+			k0, k1 := edgeKind(ph.Edges[0]), edgeKind(ph.Edges[1])
+			pickedPhi = (k0 == "rej" && (k1 == "acc" || k1 == "all")) || (k1 == "rej" && (k0 == "acc" || k0 == "all"))
+		}
+		if ph, isPhi := an.Unwrap(arg).(*ssa.Phi); isPhi && pickedPhi {
 			rejEdge, accEdge := -1, -1
+			allEdge := false
 			for i, e := range ph.Edges {
 				switch {
 				case onlyPolarity(e, false):
 					rejEdge = i
 				case onlyPolarity(e, true):
 					accEdge = i
+				case slotList != "" && an.PathOf(e) == slotList:
+					// every reply — which, taken only when nothing was rejected, is every accepting reply
+					accEdge, allEdge = i, true
 				}
 			}
 			edgeTo = ph.Block()
 			picked := rejEdge >= 0 && accEdge >= 0 && nonEmptyRej(ph.Block().Preds[rejEdge], ph.Edges[rejEdge]) && !nonEmptyRej(ph.Block().Preds[accEdge], ph.Edges[rejEdge])
 			if picked {
 				okRet = true
+				if allEdge {
+					allWhenNoneRejected = true
+				}
 			}
 			edgeTo = nil
 			detail += fmt.Sprintf("[join(picked list): rejecting list chosen iff non-empty: %v] ", picked)
